@@ -253,6 +253,29 @@ func copyVal(v value) value {
 	return v
 }
 
+// storeInPlace assigns v to *p keeping the addresses of the fields/elements
+// of an aggregate already stored there valid (FieldAddr/IndexAddr results
+// computed before the store must still alias the variable).
+func storeInPlace(p *value, v value) {
+	switch nv := v.(type) {
+	case structure:
+		if old, ok := (*p).(structure); ok && len(old) == len(nv) {
+			for i := range nv {
+				storeInPlace(&old[i], nv[i])
+			}
+			return
+		}
+	case array:
+		if old, ok := (*p).(array); ok && len(old) == len(nv) {
+			for i := range nv {
+				storeInPlace(&old[i], nv[i])
+			}
+			return
+		}
+	}
+	*p = copyVal(v)
+}
+
 func (m *Machine) load(p value) value {
 	switch p := p.(type) {
 	case *value:
@@ -272,7 +295,7 @@ func (m *Machine) store(p value, v value) {
 		if p == nil {
 			panic(runtimeErr{"invalid memory address or nil pointer dereference"})
 		}
-		*p = copyVal(v)
+		storeInPlace(p, v)
 		return
 	case *elemPtr:
 		p.store(v)
@@ -491,9 +514,50 @@ func (m *Machine) strEq(a, b strV) *smt.Term {
 	if a.concrete() && b.concrete() {
 		return m.c.Bool(a.s == b.s)
 	}
-	r := m.c.True
-	for i := 0; i < a.length(); i++ {
-		r = m.c.And(r, m.c.Eq(m.strByte(a, i), m.strByte(b, i)))
+	return m.seqEq(m.strBytes(a), m.strBytes(b))
+}
+
+// extractOf reports (X, lo) if t is the byte X[lo+7:lo] of a wider term X.
+func extractOf(t *smt.Term) (*smt.Term, int, bool) {
+	if t.Op == smt.OExtract && t.S.W == 8 {
+		return t.Args[0], t.B, true
+	}
+	return nil, 0, false
+}
+
+// seqEq is the equality of two byte sequences of the same length.  Runs of
+// bytes that are adjacent slices of one wide term on both sides (digests of
+// an uninterpreted hash, mostly) are compared as one wide equality instead of
+// byte by byte, which keeps UF-heavy queries easy for the solver.
+func (m *Machine) seqEq(a, b []*smt.Term) *smt.Term {
+	c := m.c
+	r := c.True
+	for i := 0; i < len(a); {
+		xa, la, oka := extractOf(a[i])
+		xb, lb, okb := extractOf(b[i])
+		if !oka || !okb {
+			r = c.And(r, c.Eq(a[i], b[i]))
+			i++
+			continue
+		}
+		j := i + 1
+		for j < len(a) {
+			ya, l2a, ok1 := extractOf(a[j])
+			yb, l2b, ok2 := extractOf(b[j])
+			if !ok1 || !ok2 || ya != xa || yb != xb || l2a != la-8*(j-i) || l2b != lb-8*(j-i) {
+				break
+			}
+			j++
+		}
+		n := j - i
+		if n == 1 {
+			r = c.And(r, c.Eq(a[i], b[i]))
+		} else {
+			ta := c.Extract(la+7, la-8*(n-1), xa)
+			tb := c.Extract(lb+7, lb-8*(n-1), xb)
+			r = c.And(r, c.Eq(ta, tb))
+		}
+		i = j
 	}
 	return r
 }
